@@ -158,6 +158,10 @@ impl Clone for Node {
         let w = world();
         w.nclones += 1;
         let id = w.clone_id;
+        if w.clone_shallow {
+            // a payload whose Clone does not re-share the handles stored in the original
+            return Node { id, canary: MAGIC ^ id as u64, strong: RefCell::new(Vec::new()), weak: RefCell::new(Vec::new()) };
+        }
         let strong: Vec<SH> = self
             .strong
             .borrow()
@@ -276,6 +280,7 @@ struct World {
     detached: Vec<Option<Node>>,
     nclones: u32,
     clone_id: u32,
+    clone_shallow: bool,
     sworld: stdworld::SWorld,
     std_on: bool,
     stdrep: String,
@@ -1046,7 +1051,7 @@ fn exec(w: &mut World, op: &Op, in_dtor_of: Option<&Node>, dry: bool) -> Option<
             let r = lib(|| unsafe { Rc::get_mut(&mut *p).is_some() });
             Some(if r { "some" } else { "none" }.into())
         }
-        "MakeMut" => {
+        "MakeMut" | "MakeMutS" => {
             if !made(w, a) || w.roots[a as usize].is_empty() || !intact(w, a) {
                 return None;
             }
@@ -1060,7 +1065,8 @@ fn exec(w: &mut World, op: &Op, in_dtor_of: Option<&Node>, dry: bool) -> Option<
             if dry {
                 return Some(if branch == "unique" { "0".into() } else { newid.to_string() });
             }
-            if branch == "cloned" {
+            w.clone_shallow = op.op == "MakeMutS";
+            if branch == "cloned" && !w.clone_shallow {
                 // cloning the value clones every stored strong handle: predicted abort
                 let n = node(w, a);
                 let dead: Vec<u32> = n.strong.borrow().iter().map(|e| e.target).collect();
@@ -1219,7 +1225,7 @@ fn top_call(w: &mut World, op: &Op) {
         return; // not enabled in this world: nothing is called, nothing is logged
     }
     let mut opx = op.clone();
-    if op.op == "MakeMut" {
+    if op.op == "MakeMut" || op.op == "MakeMutS" {
         opx.b = pre.as_deref().unwrap_or("0").parse().unwrap_or(0);
     }
     let op = &opx;
@@ -1429,7 +1435,7 @@ fn drive_script(rng: &mut SmallRng, len: usize, nobj: u32, profile: &str, script
     let consume = profile == "consume" || profile == "std";
     let stdp = profile == "std";
     let mut scripted = 0u32;
-    let cons: &[&str] = &["TryUnwrap", "GetMut", "MakeMut", "MakeMut", "IntoRaw", "FromRaw", "IncStrong", "DecStrong", "DropDetached", "TryUnwrap"];
+    let cons: &[&str] = &["TryUnwrap", "GetMut", "MakeMut", "MakeMutS", "IntoRaw", "FromRaw", "IncStrong", "DecStrong", "DropDetached", "TryUnwrap"];
     let mut done: Vec<Op> = Vec::new();
     let order = profile == "order";
     let build: &[&str] = if stdp {
@@ -1517,10 +1523,10 @@ fn drive_script(rng: &mut SmallRng, len: usize, nobj: u32, profile: &str, script
         }
         let op = Op { op: name.to_string(), a: if name == "New" { n + 1 } else { a }, b: match name {
             "New" | "CloneRoot" | "DropRoot" | "AdoptSame" | "UnadoptSame" | "Downgrade" | "Upgrade" | "WeakClone" | "WeakDrop"
-            | "TryUnwrap" | "GetMut" | "MakeMut" | "IntoRaw" | "FromRaw" | "IncStrong" | "DecStrong" | "DropDetached" | "Misc" => 0,
+            | "TryUnwrap" | "GetMut" | "MakeMut" | "MakeMutS" | "IntoRaw" | "FromRaw" | "IncStrong" | "DecStrong" | "DropDetached" | "Misc" => 0,
             _ => b,
         }, d };
-        if name == "MakeMut" && n >= nobj {
+        if (name == "MakeMut" || name == "MakeMutS") && n >= nobj {
             continue; // no identity left for the allocation make_mut may create
         }
         if (strict || strict_adopt) && n > 0 {
